@@ -34,12 +34,15 @@ func buildGraph(c *engine.C, o graphOpts) genGraph {
 	n := o.N
 	dist := 0
 	if o.DistMenu {
-		dist = (c.Choose(5, "dist") + o.DefaultDist) % 5
+		dist = (c.Choose(6, "dist") + o.DefaultDist) % 6
 		if dist == 3 {
 			c.Tag("default-package")
 		}
 		if dist == 4 {
 			c.Tag("names-that-end-in-each-other")
+		}
+		if dist == 5 {
+			c.Tag("method-named-like-a-package-segment")
 		}
 	}
 	quote, unresolved, external, overload := 0, false, false, false
@@ -74,6 +77,10 @@ func buildGraph(c *engine.C, o graphOpts) genGraph {
 				m.Class = "B" // keeps the names distinct for n > 3: B-names end in each other, not in the A-names
 				m.Pkg = []string{"com.p", "p"}[i-3]
 			}
+		case 5:
+			// every method is named like the last segment of its own package (com.m1.C1.m1): the class of a
+			// method is its full name without the LAST segment, whatever the earlier segments are
+			m.Pkg, m.Class = fmt.Sprintf("com.m%d", i), fmt.Sprintf("C%d", i)
 		}
 		if quote > 0 && i == 1%n {
 			// a quote; an escaped quote as in the literal receiver "say \"hi\""; two escaped quotes in a row. No name holds
